@@ -19,6 +19,10 @@ BoundedR(n) == Init /\ [][TLCGet("level") < n /\ (Next \/ NextR)]_vars
 SpecRL3 == BoundedR(3)
 SpecRL4 == BoundedR(4)
 SpecRL5 == BoundedR(5)
+BoundedC(n) == Init /\ [][TLCGet("level") < n /\ (Next \/ NextC)]_vars
+SpecCL4 == BoundedC(4)
+SpecCL5 == BoundedC(5)
+SpecCL6 == BoundedC(6)
 ViewHist == <<root, contents, hist>>
 BoundedF(n) == Init /\ [][TLCGet("level") < n /\ (Next \/ NextFSet)]_vars
 KTinyB == {Bits(<<1>>), Bits(<<0, 1>>), Bits(<<0, 128>>)}
